@@ -78,8 +78,7 @@ mzd_t *_mzd_mul_even(mzd_t *C, mzd_t const *A, mzd_t const *B, int cutoff);
 mzd_t *_mzd_addmul_even(mzd_t *C, mzd_t const *A, mzd_t const *B, int cutoff);
 mzd_t *_mzd_addmul(mzd_t *C, mzd_t const *A, mzd_t const *B, int cutoff);
 
-mzd_t *mzd_mul_mp(mzd_t *C, mzd_t const *A, mzd_t const *B, int cutoff);
-mzd_t *mzd_addmul_mp(mzd_t *C, mzd_t const *A, mzd_t const *B, int cutoff);
+/* mzd_mul_mp / mzd_addmul_mp exist only in OpenMP builds: reached through vf_mul_mp */
 
 rci_t mzd_pluq(mzd_t *A, mzp_t *P, mzp_t *Q, const int cutoff);
 rci_t mzd_ple(mzd_t *A, mzp_t *P, mzp_t *Q, const int cutoff);
@@ -228,6 +227,8 @@ long vf_cfg_l2(void);
 long vf_cfg_l3(void);
 long vf_cfg_mmc_threshold(void);
 int vf_cfg_mmc_nblocks(void);
+/* add != 0: mzd_addmul_mp, else mzd_mul_mp; returns NULL and sets *unsupported in non-OpenMP builds */
+mzd_t *vf_mul_mp(mzd_t *C, mzd_t const *A, mzd_t const *B, int cutoff, int add, int *unsupported);
 int vf_omp_max_threads(void);
 void vf_omp_set_threads(int n);
 
